@@ -1,9 +1,51 @@
-(** Property C03 — theorems only; proofs live in Proofs/. *)
-From Coq Require Import String List.
-From Zog Require Import Model.Val Model.Engine Spec.Sem Proofs.Refine.
+(** Property C03 — on success the destination holds the documented coercion of the input. *)
+From Coq Require Import String List ZArith Bool.
+From Zog Require Import Model.Val Model.Engine Model.Coerce Spec.Sem Spec.Satisfies Proofs.Refine Proofs.ExactP Proofs.AbsentP.
+Import ListNotations.
 
-(** The executable engine (flags, shared child context, mutable path stack, one issue log) computes
-    exactly the context-free semantics, for every schema, mode, input and destination. *)
 Theorem C03_engine_computes_semantics : forall m s dat d, run m s dat d = sem_run m s dat d.
 Proof. exact run_is_sem_run. Qed.
 Print Assumptions C03_engine_computes_semantics.
+
+(** a present, coercible leaf: the destination is the coercer's result, for ANY coercer (the
+    default one, WithCoercer's, Time.Format's) — tests never change it *)
+Theorem C03_leaf_is_coercion : forall p dat d e0 v, p_pts p = [] -> p_catch p = None -> parse_zero dat = false -> p_coerce p dat = Some v ->
+  snd (sem_prim Parse p dat d e0) = v.
+Proof. exact leaf_is_coercion. Qed.
+Print Assumptions C03_leaf_is_coercion.
+
+(** what the default coercers do, for every oracle of the stdlib functions they call *)
+Theorem C03_documented_coercions : forall o l,
+  coerce_default o l KInt (VStr "1") = Some (DInt 1)
+  /\ coerce_default o l KBool (VStr "on") = Some (DBool true) /\ coerce_default o l KBool (VStr "off") = Some (DBool false)
+  /\ coerce_default o l KBool (VStr "true") = Some (DBool true) /\ coerce_default o l KBool (VInt 1) = Some (DBool true)
+  /\ (forall z, coerce_default o l KTime (VInt z) = Some (DTime {| t_sec := z; t_nsec := 0; t_off := 0 |}))
+  /\ (forall s, coerce_default o l KTime (VStr s) = option_map DTime (o_parse_time o l s))
+  /\ (forall v, coerce_default o l KString v = Some (DStr (sprint o v)))
+  /\ (forall v, match v with VList _ => True | _ => coerce_slice v = Some [v] end)
+  /\ (forall items, coerce_slice (VList items) = Some items).
+Proof. exact documented_coercions. Qed.
+Print Assumptions C03_documented_coercions.
+
+(** destination fields the schema does not name are never written; no field is added or removed *)
+Theorem C03_unnamed_fields_untouched : forall m pv srec fs dfs e,
+  map fst (snd (sem_fields srec m pv fs dfs e)) = map fst dfs
+  /\ forall k, ~ In k (map fst fs) -> dlookup k (snd (sem_fields srec m pv fs dfs e)) = dlookup k dfs.
+Proof. exact unnamed_fields_untouched. Qed.
+Print Assumptions C03_unnamed_fields_untouched.
+
+(** slice length and element order equal the input's *)
+Theorem C03_slice_keeps_length_and_order : forall m e items zero e0, pt_free e = true ->
+  snd (sem_elems_parse (sem m e) items zero [] 0 e0) = map (fun v => snd (sem m e (DVal v) zero false)) items.
+Proof. exact slice_keeps_length_and_order. Qed.
+Print Assumptions C03_slice_keeps_length_and_order.
+
+(** present pointer inputs allocate; absent optional inputs leave the destination untouched (nil for pointers) *)
+Theorem C03_pointer_allocates : forall e pz v e0, parse_zero v = false ->
+  exists y, snd (sem Parse (SPtr e None pz) (DVal v) (DPtr None) e0) = DPtr (Some y) /\ y = snd (sem Parse e (DVal v) pz e0).
+Proof. exact pointer_allocates. Qed.
+Print Assumptions C03_pointer_allocates.
+Theorem C03_absent_pointer_stays_nil : forall e pz v d e0, parse_zero v = true ->
+  sem Parse (SPtr e None pz) (DVal v) d e0 = ([], d) /\ sem Validate (SPtr e None pz) (DVal v) (DPtr None) e0 = ([], DPtr None).
+Proof. exact ptr_absent_optional. Qed.
+Print Assumptions C03_absent_pointer_stays_nil.
